@@ -250,3 +250,61 @@ def run(ctx, args):
                      "non-dyadic float result, order-sensitive evaluation, impure right operand of && / ||), fuel, division by zero, index out of range",
                      "5 and 5.0 are the same value"],
         extra={"outcome_counts": counts, "programs": n, "cases": len(cases), "irmachine_trace_validation": irm})
+
+
+def selftest(ctx, args):
+    """Negative controls for the instruction-trace binding: recorded traces of a few programs are accepted; the same traces
+    with one logged value changed, one event removed, one opcode renamed, or with the hook silent are rejected, and the
+    verdict points at the manipulated event."""
+    import copy
+    import json
+    from nsl import LinearIR as L
+    mods, cases, meta = [], [], {}
+    for i in range(12):
+        prog, inputs = gen_case(4242, i, FEAT)
+        st, r, info = common.compile_traced(A.pp(prog), {"optimize": False})
+        if st != "ok":
+            continue
+        program = A.link(r)
+        params = [p_["n"] for p_ in [f for f in prog["funcs"] if f["name"] == "f"][0]["params"]]
+        args_, gl = inputs[0]
+        obs, ev, trunc = irmachine.trace_run(program, L, "f", {k: A.dec(v) for k, v in args_.items()}, {k: A.dec(v) for k, v in gl.items()})
+        if not obs["ok"] or trunc or len(ev) < 12:
+            continue
+        mods.append(irmachine.machine_module(program, L))
+        base = {"m": len(mods), "entry": "f", "args": [args_[n] for n in params], "globals": gl}
+        k = next((j for j in range(len(ev) // 2, len(ev)) if ev[j].get("res", {}).get("t") == "int"), None)
+        variants = {"original": ev}
+        if k is not None:
+            e2 = copy.deepcopy(ev)
+            e2[k]["res"]["v"] += 1
+            variants[f"value-changed@{k}"] = e2
+        mid = len(ev) // 2
+        variants[f"event-removed@{mid}"] = ev[:mid] + ev[mid + 1:]
+        e3 = copy.deepcopy(ev)
+        e3[mid]["op"] = "CAST" if e3[mid]["op"] != "CAST" else "ADD"
+        variants[f"opcode-renamed@{mid}"] = e3
+        variants["hook-silent@0"] = []
+        for name, evs in variants.items():
+            cid = f"{i}:{name}"
+            cases.append(dict(base, id=cid, trace=evs))
+            meta[cid] = (obs, evs, name)
+    verdicts, _ = irmachine.run_machine(ctx, mods, cases, name="irm-selftest.json")
+    bad = 0
+    summary = {}
+    for cid, v in sorted(verdicts.items()):
+        obs, evs, name = meta[cid]
+        kind, detail = irmachine.judge(v, obs, evs, False)
+        if name == "original":
+            ok = kind in ("agree", "unjudged", "defined-fail")
+        else:
+            at = int(name.split("@")[1])
+            where = (v["lastidx"] - 1) if v["status"] == "result-mismatch" else v["l"] - 1
+            ok = kind in ("step-result", "step-diverged", "vm-error") and abs(where - at) <= 1
+        summary[name.split("@")[0] + (":rejected" if name != "original" and ok else ":accepted" if name == "original" and ok else ":WRONG")] = \
+            summary.get(name.split("@")[0] + (":rejected" if name != "original" and ok else ":accepted" if name == "original" and ok else ":WRONG"), 0) + 1
+        if not ok:
+            bad += 1
+            print(f"SELFTEST-FAILED {cid}: verdict {kind} ({detail[:120]})")
+    print("selftest C01 (IRMachine trace binding):", json.dumps(summary, sort_keys=True))
+    return 0 if bad == 0 and any(k.endswith(":rejected") for k in summary) else 2
